@@ -651,6 +651,52 @@ def r_py_jac_copy(rep, f):
         rep.inconc(key0, key0 + ":floor", "only %d array-to-Matrix copy sites found (expected >= 3)" % n)
 
 
+FLOAT_KEYS = {"direction", "rtol", "atol", "max_step", "min_step", "first_step"}
+INT_TYS = ("i8", "i16", "i32", "i64", "isize", "u8", "u16", "u32", "u64", "usize")
+
+
+def r_py_float_extract(rep, f):
+    """values SciPy documents as floats (the event attribute `direction`, rtol/atol, max_step, first_step) are extracted
+    from Python as floats: an integer extraction fails for 1.0 / np.float64 and - the failure being dropped by the
+    surrounding `if let Ok(..)` - silently turns the setting off."""
+    n = 0
+    for fn in (PY + "parse_events", PY + "parse_options"):
+        b = f.bodies.get(fn)
+        if b is None:
+            rep.inconc("R-PY-FLOAT", "R-PY-FLOAT:%s" % fn, "function not found in the python cfg")
+            continue
+        rep.fn(fn)
+        for i_ in tast.find(b["body"], lambda z: z.get("k") == "If" and z["cond"].get("k") == "LetExpr"):
+            look = tast.find(i_["cond"]["init"], lambda q: q.get("k") == "MethodCall" and q.get("name") in ("getattr", "get_item") and q.get("args")
+                             and q["args"][0].get("k") == "Lit" and q["args"][0].get("v") in FLOAT_KEYS)
+            if not look:
+                continue
+            kname = look[0]["args"][0]["v"]
+            binds = [q["id"] for q in tast.find(i_["cond"]["pat"], lambda q: q.get("k") == "PBind")]
+            exs = [mc for mc in tast.find(i_["then"], lambda z: z.get("k") == "MethodCall" and z.get("name") == "extract"
+                                          and tast.contains(z["recv"], lambda q: q.get("k") == "Path" and q.get("id") in binds))]
+            if not exs:
+                continue
+            n += 1
+            key = "R-PY-FLOAT:%s:%s" % (fn.split("::")[-1], kname)
+            tys = []
+            for mc in exs:
+                t = (mc.get("ty") or "")
+                inner = t[len("std::result::Result<"):].rsplit(", pyo3::PyErr>", 1)[0] if t.startswith("std::result::Result<") else t
+                tys.append(inner)
+            ints = [t for t in tys if t in INT_TYS or any(t == "std::vec::Vec<%s>" % it for it in INT_TYS)]
+            floats = [t for t in tys if "f64" in t or "f32" in t]
+            if ints and not (floats and tys.index(floats[0]) < tys.index(ints[0])):
+                rep.violation("R-PY-FLOAT", key, "`%s` is extracted from Python as %s before any float extraction: a float value (1.0, numpy.float64) fails the extraction and the "
+                              "setting is silently ignored" % (kname, ints[0]), exs[0].get("sp"))
+            elif not floats:
+                rep.inconc("R-PY-FLOAT", key, "extraction type(s) %s of `%s` not understood" % (tys, kname), exs[0].get("sp"))
+            else:
+                rep.ok("R-PY-FLOAT", key, "`%s` extracted as %s" % (kname, floats[0]))
+    if n < 5:
+        rep.inconc("R-PY-FLOAT", "R-PY-FLOAT:floor", "only %d float-valued settings found (expected >= 5: direction, rtol, atol, max_step, first_step)" % n)
+
+
 def r_py_method(rep, f):
     """Method::from(&str) on the documented names"""
     key0 = "R-PY-METHOD"
@@ -721,6 +767,8 @@ def run(rep, tier):
     r_py_jac_copy(rep, f)
     rep.rule("R-PY-COLOUR", "greedy column grouping: a column is admitted to a group exactly when none of its rows is marked there, and every assignment of a column marks all its rows in that group's table (test-and-mark discipline => no two columns of a group share a row)")
     r_py_colour(rep, f)
+    rep.rule("R-PY-FLOAT", "settings SciPy documents as floats (event.direction, rtol, atol, max_step, first_step) are extracted as floats, not integers, where the failure of the extraction is silently dropped")
+    r_py_float_extract(rep, f)
     # the statistics the binding copies are the ones C18 pairs with evaluations (python cfg compiles the same solvers)
     rep.explanation = ("Decides the binding's plumbing tables on the `--features python` build (type-checked without a Python interpreter): option routing, status mapping, array layout, argument passing, "
                        "extrapolating evaluation, method names. NOT decided: numerical equality with the Rust API as an execution through CPython, NumPy dtype conversions, "
